@@ -12,7 +12,7 @@ CONSTANT AMaxLen
 VARIABLE plist
 vars == <<plist>>
 
-\* pool of 8 paths between nodes 1 and 9: hop counts 1..3, departures and
+\* pool of 10 paths between nodes 1 and 9: hop counts 1..3, departures and
 \* arrivals chosen so that every criterion has ties and the criteria disagree
 H(a, b, t) == <<a, b, t>>
 Pool == { << H(1, 9, 5) >>,                                   \* 1 hop, dur 0, arr 5
@@ -22,7 +22,11 @@ Pool == { << H(1, 9, 5) >>,                                   \* 1 hop, dur 0, a
           << H(1, 2, 4), H(2, 9, 5) >>,                       \* 2 hops, dur 1, arr 5
           << H(1, 2, 0), H(2, 3, 1), H(3, 9, 2) >>,           \* 3 hops, dur 2, arr 2
           << H(1, 4, 1), H(4, 3, 2), H(3, 9, 2 + 1) >>,       \* 3 hops, dur 2, arr 3
-          << H(1, 2, 6), H(2, 3, 7), H(3, 9, 8) >> }          \* 3 hops, dur 2, arr 8
+          << H(1, 2, 6), H(2, 3, 7), H(3, 9, 8) >>,           \* 3 hops, dur 2, arr 8
+          \* equally fast as the 3-hop paths with fewer hops (fastest ties with different hop counts), and a
+          \* 3-hop path as slow as a 2-hop one (shortest_fastest / fastest_shortest must use the *other* measure)
+          << H(1, 4, 3), H(4, 9, 5) >>,                       \* 2 hops, dur 2, arr 5
+          << H(1, 2, 1), H(2, 4, 2), H(4, 9, 4) >> }          \* 3 hops, dur 3, arr 4
 
 RECURSIVE ListsUpTo(_)
 ListsUpTo(n) == IF n = 0 THEN { <<>> }
